@@ -1,0 +1,57 @@
+//go:build verif
+
+package cputensor
+
+import "github.com/sahandsafizadeh/qeep/tensor/internal/tensor"
+
+// VerifInspect returns a read-only deep copy of a CPU tensor's private state:
+// the elements in the order of the nested data (walking the data as it
+// actually is, not as dims claims), the lengths found along the first branch
+// of the nesting, a copy of dims, and whether the nesting is rectangular.
+func VerifInspect(t tensor.Tensor) (flat []float64, nesting []int, dims []int, rect bool, ok bool) {
+	ct, isCPU := t.(*CPUTensor)
+	if !isCPU || ct == nil {
+		return nil, nil, nil, false, false
+	}
+
+	dims = make([]int, len(ct.dims))
+	copy(dims, ct.dims)
+
+	nesting = []int{}
+	for d := ct.data; ; {
+		rows, isRows := d.([]any)
+		if !isRows {
+			break
+		}
+		nesting = append(nesting, len(rows))
+		if len(rows) == 0 {
+			break
+		}
+		d = rows[0]
+	}
+
+	rect = true
+
+	var walk func(data any, depth int)
+	walk = func(data any, depth int) {
+		switch v := data.(type) {
+		case float64:
+			if depth != len(nesting) {
+				rect = false
+			}
+			flat = append(flat, v)
+		case []any:
+			if depth >= len(nesting) || nesting[depth] != len(v) {
+				rect = false
+			}
+			for _, e := range v {
+				walk(e, depth+1)
+			}
+		default:
+			rect = false
+		}
+	}
+	walk(ct.data, 0)
+
+	return flat, nesting, dims, rect, true
+}
